@@ -64,6 +64,17 @@ R7 = (" Round 7 (`Cxx_r7mK`, 'well-meant additions': a fast path for the common 
       "a start of one point, a viscosity along x, concrete zero weights and bounds, an untracked second parameter), integer indexing of single-row "
       "axes and the models `clip`, `nan_to_num`, `jax.tree.all`, `vars`. Now 41 of the 60 are reported, 14 make a check leave its vocabulary "
       "(exit 2: it names the construct it cannot decide) and 5 are silent (section 6).")
+R8 = (" Round 8 (`Cxx_r8mK`, 'needs a history'; 12 properties, one or two changes each; 17 kept - an 18th, `C14_r8m2`, a module-level cache keyed by the product of two counts, "
+      "was dropped: one baseline test failed with it in the full-suite run here although it passes alone, an order-dependent failure): the change must be invisible on the first call / "
+      "epoch / refinement step or on a freshly constructed object and show only after a sequence (an epoch rollover, the second refinement, a "
+      "second evaluation in the same process, a field replaced with `eqx.tree_at` between two calls, a second generator with another split of "
+      "the same row count) or through two cooperating sites (a writer and a reader that each look right alone: a carry slot lagging one step, "
+      "0- vs 1-based counters in the constructor and the trigger, a slice start recomputed with `>` where the reset uses `>=`). Because the "
+      "one-step obligations are stated on a symbolic state (any index, any key, any number of earlier refinement steps; frozen arguments; two "
+      "evaluations in a row), 11 of the 17 were reported by the machinery as it stood, 3 made a check leave its vocabulary (exit 2: a rebuilt probability vector with a loop that starts at the step number, `finfo(...).eps` and a boolean used "
+      "as an increment in the validation counter) and 3 were silent; the three led to C09.R1's key obligation for the parameter and observation "
+      "loaders, the batch-composition helpers as entry points of C20.R2 and the new C13.R6 (end of section 3). Now 14 are reported, 3 "
+      "inconclusive, none silent.")
 p = os.path.join(V, 'DESIGN.md'); s = open(p).read()
 i = s.index("## 8. Seeded changes and which checks catch them"); j = s.index("## 9. Departures")
 s = s[:i] + "## 8. Seeded changes and which checks catch them\n\n" + \
@@ -106,7 +117,7 @@ s = s[:i] + "## 8. Seeded changes and which checks catch them\n\n" + \
     "`minimum` / `maximum`, and missing obligations (dictionary orders against sorted pytree leaves, field converters through the constructors, " \
     "an empty parameter batch, constructor counters, stop_gradient on the hyper-network input or on a differentiated variable, donated buffers, " \
     "non-array data in dynamic fields). Nine were not decided at first; the single-row twins, the replaced-weights obligations and the `resize` " \
-    "model (end of section 3) decide four of them, five remain (dtypes, a change outside C06's quantifier; section 6)." + R7 + "\n\n" + \
+    "model (end of section 3) decide four of them, five remain (dtypes, a change outside C06's quantifier; section 6)." + R7 + R8 + "\n\n" + \
     tab + "\n\nOne candidate was dropped: `C16_m3` (`i <= start_iter` -> `i < start_iter` in `rar_step_false`). It was produced against " \
     "the tree before repair fc78006; on the repaired tree the period counter equals `update_every - 1` at `start_iter`, a non-step at " \
     "`i == start_iter` can then only be caused by a full store, and the change no longer alters any observable count (its demo passes " \
